@@ -39,3 +39,32 @@ fn(H2 + "._send_data", params={"stream_id": "int"}, task="send",
        ("C09.end-once", "trace_all('h2', 'x', True)", "C09"),
    ],
    props=("C04", "C09"))
+
+import importlib.util as _u, os as _o
+_s = _u.spec_from_file_location("a_events", _o.path.join(_o.path.dirname(__file__), "a_events.py"))
+_ev = _u.module_from_spec(_s); _s.loader.exec_module(_ev)
+
+fn(H2 + ".send_task", params={}, task="send", loops={0: {"locals": {"stream_id": "int"}}}, props=("C04", "C09"))
+
+fn(H2 + ".handle", params={"event": _ev.IO_EVENTS}, task="reader",
+   loops={0: {"invariant": [("handle.loop.closed", "self.closed")]}},
+   ensures=[
+       ("C03.h2.closed-flag", "implies(isinstance(event, Closed), self.closed)", "C03,C07"),
+   ],
+   props=("C04",))
+
+fn(H2 + ".stream_send", params={"event": _ev.STREAM_EVENTS}, task="app",
+   requires=[("stream_send.pre.sid", "event.stream_id > 0")], props=("C04", "C05"))
+
+fn(H2 + "._handle_events", params={"events": "obj pyvc:H2Events"}, task="reader", props=("C04",))
+
+fn(H2 + "._create_stream", params={"request": "obj h2.events:RequestReceived"}, task="reader",
+   loops={0: {"locals": {"method": "str", "raw_path": "bstr"}}},
+   props=("C04", "C01", "C18"))
+
+fn(H2 + "._window_updated", params={"stream_id": "opt int"}, task="reader", props=("C04", "C09"))
+fn(H2 + "._priority_updated", params={"event": "obj h2.events:PriorityUpdated"}, task="reader", props=("C04", "C09"))
+fn(H2 + "._close_stream", params={"stream_id": "int"}, props=("C04", "C03"))
+fn(H2 + "._create_server_push", params={"stream_id": "int", "path": "bstr", "headers": "hdrs"}, task="app", props=("C04",))
+fn(H2 + ".initiate", params={"headers": "opt hdrs", "settings": "opt str"}, task="reader", props=("C04", "C13"))
+fn(H2 + ".idle", params={}, returns="bool", modifies=[], props=("C07",))
